@@ -49,15 +49,36 @@ def is_zero_operator(model, L, d, p):
     return all(x == 0 for x in p)
 
 
-def record_model(ptn, model, L, d, p):
+def _mutate(mpo, how):
+    """what a user may do to a returned MPO before asking for the same Hamiltonian again"""
+    if how == 0:
+        mpo.zero_qnumbers()
+    elif how == 1:
+        mpo.orthonormalize(mode='left')
+    else:
+        mpo.A[0] *= 3.0
+        mpo.A[-1][...] = 0
+
+
+def record_model(ptn, model, L, d, p, second=False):
+    """second: the constructor is first called once with the same arguments and that result is modified in place (a history:
+    constructors must not hand out shared state); the recorded MPO is the one returned by the second call"""
     try:
         if model.startswith('linferm'):
             f = [complex(a, b) for a, b in p]
-            mpo = ptn.linear_fermionic_mpo(f, 'c' if model.endswith('_c') else 'a')
+            k = (sum(abs(a) + abs(b) for a, b in p) + L) % 3          # every documented spelling of the operator type
+            ftype = (['c', 'create', 'creation'] if model.endswith('_c') else ['a', 'annihilate', 'annihilation'])[k]
+            if second:
+                first = ptn.linear_fermionic_mpo(list(f), ftype)
+                _mutate(first, (L + k) % 3)
+            mpo = ptn.linear_fermionic_mpo(f, ftype)
             dd = 2
             rec = dict(ev='model', model=model, L=L, d=2, params=[0, 0, 0], f=[[int(a), int(b)] for a, b in p], hermitian=False)
             Ts, S = scaled_tensors(mpo, 'none', 2)
         else:
+            if second:
+                first = models.build(ptn, model, L, p, d)
+                _mutate(first, (L + int(sum(abs(x) for x in p))) % 3)
             mpo = models.build(ptn, model, L, p, d)
             dd = models.local_dim(model, d)
             rec = dict(ev='model', model=model, L=L, d=dd, params=[int(x) for x in p], f=[], hermitian=True)
@@ -127,8 +148,9 @@ def run(ctx):
                     if any(x != (0, 0) for x in f):
                         cases.append((kind, L, None, f))
     traces = []
-    for model, L, d, p in cases:
-        traces.append(record_model(ptn, model, L, d, p))
+    for k, (model, L, d, p) in enumerate(cases):
+        # every third case as a history: call, modify the result in place, call again with equal arguments
+        traces.append(record_model(ptn, model, L, d, p, second=(k % 3 == 1) if ctx.replay is None else True))
         ctx.count([model, L, d, p], nontrivial=L >= 2)
     for tr in traces[::max(1, len(traces) // 6)]:
         ctx.sample({k: v for k, v in tr[0].items() if k != 'T'})
